@@ -718,3 +718,60 @@ Module TokExamples2.
     split; [reflexivity|]. vm_compute. reflexivity.
   Qed.
 End TokExamples2.
+
+(** * 6. What the scanner returns: command-line occurrences of arguments of the command, with no
+    value for a flag and exactly one for an option *)
+Definition scanned (c : cmd) (o : occ) : Prop :=
+  In (o_arg o) (c_args c) /\ o_src o = SCmdLine /\ o_ti o = None /\
+  (if a_takes_value (o_arg o) then exists v, o_raw o = [v] else o_raw o = []).
+
+Lemma simple_opt_takes_value a : simple_opt a = true -> a_takes_value a = true.
+Proof.
+  intros H. destruct (simple_opt_num a H) as [r [NA VM]]. unfold a_takes_value, r_takes_values.
+  rewrite NA. cbn [opt_default]. rewrite VM. reflexivity.
+Qed.
+
+Lemma scan_cluster_scanned c : forall fuel r os p, scan_cluster c fuel r = Some (os, p) -> Forall (scanned c) os.
+Proof.
+  induction fuel as [|f IH]; intros r os p H; [discriminate|]. cbn [scan_cluster] in H.
+  destruct (sf_next r) as [[[ch|bad] r']|]; try discriminate.
+  - destruct (get_short c ch) as [a|] eqn:GS; [|discriminate]. pose proof (get_short_in c ch a GS) as HIn.
+    destruct (a_takes_value a) eqn:TV.
+    + destruct (simple_opt a); [|discriminate]. destruct r' as [|b t]; inversion H; subst; [constructor|].
+      constructor; [|constructor]. unfold scanned. cbn [tok_occ o_arg o_src o_ti o_raw]. rewrite TV. eauto.
+    + destruct (scan_cluster c f r') as [[os' p']|] eqn:SC; [|discriminate]. inversion H; subst.
+      constructor; [|exact (IH r' os' p SC)]. unfold scanned. cbn [tok_occ o_arg o_src o_ti o_raw]. rewrite TV. auto.
+  - inversion H; subst. constructor.
+Qed.
+
+Lemma classify_scanned c tok os p : classify c tok = Some (os, p) -> Forall (scanned c) os.
+Proof.
+  unfold classify. destruct (is_escape tok); [discriminate|].
+  destruct (to_long tok) as [[[f ok] v]|].
+  - destruct (negb ok); [discriminate|]. destruct (get_long c f) as [a|] eqn:GL; [|discriminate].
+    pose proof (get_long_in c f a GL) as HIn. destruct (a_takes_value a) eqn:TV.
+    + destruct (simple_opt a); [|discriminate]. destruct v as [x|]; intros H; inversion H; subst; [|constructor].
+      constructor; [|constructor]. unfold scanned. cbn [tok_occ o_arg o_src o_ti o_raw]. rewrite TV. eauto.
+    + destruct v; [discriminate|]. intros H; inversion H; subst.
+      constructor; [|constructor]. unfold scanned. cbn [tok_occ o_arg o_src o_ti o_raw]. rewrite TV. auto.
+  - destruct (to_short tok) as [r|]; [|discriminate]. apply scan_cluster_scanned.
+Qed.
+
+Lemma scan_scanned c : forall toks pend os,
+  match pend with Some (_, a) => In a (c_args c) /\ simple_opt a = true | None => True end ->
+  scan c pend toks = Some os -> Forall (scanned c) os.
+Proof.
+  induction toks as [|tok rest IH]; intros pend os HP H; cbn [scan] in H.
+  - destruct pend as [[idn a]|]; [discriminate|]. inversion H; subst. constructor.
+  - destruct pend as [[idn a]|].
+    + destruct (_ && _); [|discriminate]. destruct (scan c None rest) as [os'|] eqn:SR; [|discriminate].
+      inversion H; subst. destruct HP as [HIn SO]. constructor; [|exact (IH None os' I SR)].
+      unfold scanned. cbn [tok_occ o_arg o_src o_ti o_raw]. rewrite (simple_opt_takes_value a SO). eauto.
+    + destruct (nosub c tok); [|discriminate]. destruct (classify c tok) as [[os1 p]|] eqn:CL; [|discriminate].
+      destruct (scan c p rest) as [os2|] eqn:SR; [|discriminate]. inversion H; subst.
+      apply Forall_app. split; [exact (classify_scanned c tok os1 p CL)|].
+      apply (IH p os2); [|exact SR]. destruct p as [[idn a]|]; [|exact I]. exact (classify_pend c tok os1 idn a CL).
+Qed.
+
+Theorem occurrences_scanned c toks os : occurrences c toks = Some os -> Forall (scanned c) os.
+Proof. exact (scan_scanned c toks None os I). Qed.
